@@ -5,6 +5,7 @@
 import AuthProofs.StateInventory
 import AuthProofs.Ladder
 import AuthProofs.CodeEquivOidc
+import AuthProofs.CodeEquivResp
 namespace AuthProps.C02
 open AuthModel AuthModel.Oidc
 
@@ -91,6 +92,16 @@ theorem code_forwarded_headers (env : Go.Env) (o : Pb.OidcHandler) (t : Pb.Token
 example : Code.encodeTokensToHeaders {} { config := { IdToken := { isNil := false, Header := B "authorization", Preamble := B "Bearer" } } }
     { IDToken := B "tok" } = .ok [(B "authorization", B "Bearer tok")] := by decide
 
+/-- THE CODE's `allowResponse`: the forwarded headers are appended to the OK response, after what an earlier filter left -/
+theorem code_ok_headers (env : Go.Env) (o : Pb.OidcHandler) (resp : Pb.CheckResponse) (t : Pb.TokenResponse) (cfg : Cfg) (tok : Tokens)
+    (hr : resp.isNil = false) (ho : o.isNil = false) (hc : o.config.isNil = false) (ht : t.isNil = false)
+    (hid : cfg.idHeader = o.config.IdToken.GetHeader) (hpre : cfg.idPreamble = o.config.IdToken.GetPreamble)
+    (hacc : cfg.access = if o.config.AccessToken.isNil then none else some (o.config.AccessToken.Header, o.config.AccessToken.Preamble))
+    (h1 : tok.idToken = t.IDToken) (h2 : tok.accessToken = t.AccessToken) :
+    ∃ r, Code.allowResponse env o resp t = .ok r ∧ CodeEquiv.respOf r = allow cfg (CodeEquiv.prevOk resp) tok :=
+  CodeEquiv.code_allow env o resp t cfg tok hr ho hc ht hid hpre hacc h1 h2
+
+
 /-- NO HIDDEN STATE: the model treats a check as a function of (configuration, request, store answers, clock, IdP and key-source answers, entropy); that is a faithful reading of the code only if nothing else survives from one check to the next. Regenerated on every run: every package-level variable and struct field of internal/server, internal/authz, internal/http, internal/oidc is the classified expectation, and handlers, filter, HTTP helpers and the Redis store own no mutable state (no verdict cache, handler cache, object pool, single-flight group or per-process copy of session data). -/
 theorem no_hidden_state : CheckPathInventory := check_path_inventory
 
@@ -105,3 +116,4 @@ end AuthProps.C02
 #print axioms AuthProps.C02.ok_headers
 #print axioms AuthProps.C02.code_forwarded_headers
 #print axioms AuthProps.C02.no_hidden_state
+#print axioms AuthProps.C02.code_ok_headers
